@@ -21,6 +21,9 @@ pub struct Plan {
     /// exhaustive small scope (C03): every sequence of at most (quick, thorough) symbols of the abstract
     /// event alphabet `History::symbol` behind a fixed prologue
     pub enumerate_symbols: Option<(u8, u8, Profile)>,
+    /// records of these oracles are this check's verdict under its own property (used by C12: a delivery that
+    /// disagrees with the reference matcher is the broker's matching / its routing cache giving a wrong answer)
+    pub relabel: Option<(&'static str, Vec<&'static str>)>,
 }
 
 pub fn s5_default(hostile: bool, group_members: usize) -> crate::sub::s5::Plan {
@@ -35,8 +38,23 @@ pub fn s5_default(hostile: bool, group_members: usize) -> crate::sub::s5::Plan {
     }
 }
 
+thread_local! {
+    static RELABEL: std::cell::RefCell<Option<(&'static str, Vec<&'static str>)>> = const { std::cell::RefCell::new(None) };
+}
+
 fn judge_history(ctx: &Ctx, stats: &mut Stats, h: &History) {
     h.absorb_into(stats);
+    let relabel = RELABEL.with(|r| r.borrow().clone());
+    if let Some((to, oracles)) = relabel {
+        if let Some(r) = h.records.iter().find(|r| oracles.contains(&r.oracle.as_str())) {
+            let mut rec = r.clone();
+            rec.facts.insert("original_property".into(), rec.property.clone().into());
+            rec.property = to.to_owned();
+            rec.oracle = format!("routing-{}", rec.oracle);
+            let _ = judge(ctx, stats, rec, || h.replay_json());
+            return;
+        }
+    }
     // the first record ends a history; anything after it would be judged on a diverged state
     // (all records of a history come from one step; the one of this check's property is its verdict)
     let mine = h.records.iter().find(|r| r.property == ctx.property).or(h.records.first());
@@ -155,6 +173,7 @@ fn run_stepped(ctx: &Ctx, plan: &Plan) -> Stats {
     let total = ctx.size(plan.quick_histories, plan.thorough_histories);
     let shards = if ctx.quick() { ctx.threads.min(8) } else { ctx.threads };
     sharded(ctx, shards, |shard, seed| {
+        RELABEL.with(|r| *r.borrow_mut() = plan.relabel.clone());
         let mut stats = Stats::default();
         let mut rng = Rng::new(seed);
         // directed scenarios first (every shard runs a rotating subset so all are covered)
@@ -196,6 +215,7 @@ fn run_stepped(ctx: &Ctx, plan: &Plan) -> Stats {
 }
 
 pub fn replay(ctx: &Ctx, plan: &Plan, doc: &Value) -> Stats {
+    RELABEL.with(|r| *r.borrow_mut() = plan.relabel.clone());
     let mut stats = Stats::default();
     let seed = doc["case_seed"].as_u64().unwrap_or(0);
     let name = doc["profile"].as_str().unwrap_or("");
